@@ -6,6 +6,7 @@ use crate::fw::*;
 use proptest::prelude::*;
 use serde::{Deserialize, Serialize};
 use serde_json::{Value, json};
+use std::collections::BTreeSet;
 use std::io::BufReader;
 use std::sync::Arc;
 use vrp_cli::extensions::solve::config::{Config, read_config};
@@ -53,6 +54,15 @@ pub fn known_nonmetric(property: &str, rendered: &Rendered, rule: &str, stats: &
     if metric_dependent && rendered.info.features.iter().any(|x| x == "non_metric") && known_open(property, SIG) {
         stats.known_hit(SIG);
         stats.class(&format!("excluded_known.detail.{rule}@non-metric"));
+        return true;
+    }
+    // Same root cause as the open reachability finding: a leg flagged unreachable that is not one of the two legs around an
+    // inserted activity (start->end of an empty tour, a leg made adjacent by a removal) is never checked, and its sentinel
+    // value (-1 for distance and duration) then enters the schedule and limit arithmetic of the following insertions.
+    const REACH: &str = "feasibility:reachability";
+    if metric_dependent && rendered.info.features.iter().any(|x| x == "unreachable_pairs") && known_open(property, REACH) {
+        stats.known_hit(REACH);
+        stats.class(&format!("excluded_known.detail.{rule}@unreachable-pairs"));
         return true;
     }
     false
@@ -165,6 +175,101 @@ impl Prop for E2eProp {
     }
 }
 
+// ---------------------------------------------------------------------------------------------
+// relations derived from a witness solution
+// ---------------------------------------------------------------------------------------------
+
+#[derive(Clone, Debug, Serialize, Deserialize)]
+pub struct RelCase {
+    pub spec: ProblemSpec,
+    pub config: ConfigSpec,
+    pub picks: Vec<u16>,
+}
+
+pub struct RelProp {
+    pub which: RProp,
+    pub property: &'static str,
+}
+
+/// Premise of the derivation: a sub-sequence of a feasible tour stays feasible only on metric data.
+pub fn relation_spec(mut spec: ProblemSpec) -> ProblemSpec {
+    spec.non_metric = false;
+    spec.unreachable.clear();
+    spec
+}
+
+/// Solves P lightly, reads relations off the solution and returns P' = P + relations (None when there is nothing to lock).
+pub fn with_witness_relations(rendered: &Rendered, picks: &[u16], stats: &Stats) -> Result<Option<(Rendered, sol::Solution)>, Failure> {
+    let core = read_core(&rendered.problem, &rendered.matrices).map_err(|e| Failure::new("harness:generator-invalid", format!("generated problem was rejected: {e}")))?;
+    let witness_cfg = json!({"termination": {"maxGenerations": 10}, "environment": {"parallelism": {"numThreadPools": 1, "threadsPerPool": 1}, "logging": {"enabled": false}}});
+    let (witness, _) = solve_to_solution(core, &witness_cfg)?;
+    let verdict = refmodel::evaluate(&rendered.problem, &rendered.matrices, &witness, tolerance(&rendered.problem));
+    if verdict.findings.iter().any(|f| f.prop != RProp::Reporting) {
+        stats.class("rel.skipped.witness_not_clean");
+        return Ok(None);
+    }
+    let relations = super::relgen::derive_relations(&rendered.problem, &witness, picks);
+    if relations.is_empty() {
+        stats.class("rel.skipped.nothing_to_lock");
+        return Ok(None);
+    }
+    let mut locked = rendered.clone();
+    locked.problem.plan.relations = Some(relations);
+    // the witness itself must satisfy the relations read off it (self-check of the derivation and of R's relation rules)
+    let self_check = refmodel::evaluate(&locked.problem, &locked.matrices, &witness, tolerance(&locked.problem));
+    if let Some(f) = self_check.findings.iter().find(|f| f.rule.starts_with("relation-")) {
+        return Err(Failure::new("harness:derived-relation-not-satisfied-by-witness", format!("[{}] {}", f.rule, f.detail)));
+    }
+    Ok(Some((locked, witness)))
+}
+
+impl Prop for RelProp {
+    type Case = RelCase;
+    fn name(&self) -> &'static str {
+        match self.which {
+            RProp::Feasibility => "e2e_relations_feasibility",
+            RProp::Conservation => "e2e_relations_conservation",
+            RProp::Reporting => "e2e_relations_reporting",
+        }
+    }
+    fn strategy(&self, tier: Tier) -> BoxedStrategy<RelCase> {
+        (problem_spec(tier.pick(12, 30)), config_spec(tier.pick(40, 200)), prop::collection::vec(any::<u16>(), 24)).prop_map(|(spec, config, picks)| RelCase { spec: relation_spec(spec), config, picks }).boxed()
+    }
+    fn cases(&self, tier: Tier) -> u32 {
+        tier.pick(1_200, 30_000)
+    }
+    fn shards(&self, _tier: Tier) -> u32 {
+        16
+    }
+    fn max_shrink_iters(&self) -> u32 {
+        200
+    }
+    fn check(&self, case: &RelCase, stats: &Stats) -> Check {
+        let rendered = render(&relation_spec(case.spec.clone()));
+        let Some((locked, witness)) = with_witness_relations(&rendered, &case.picks, stats)? else { return Ok(()) };
+        let core = read_core(&locked.problem, &locked.matrices).map_err(|e| Failure::new("harness:generator-invalid-relations", format!("problem with relations read off its own solution was rejected: {e}\n{}", serde_json::to_string(&locked.problem.plan.relations).unwrap_or_default())))?;
+        let cfg = render_config(&case.config);
+        let (solution, text) = solve_to_solution(core, &cfg)?;
+        let verdict = refmodel::evaluate(&locked.problem, &locked.matrices, &solution, tolerance(&locked.problem));
+        stats.eval();
+        for f in verdict.facts.iter().filter(|f| f.starts_with("relation_")) {
+            stats.class(&format!("rel.fact.{f}"));
+        }
+        let relations = locked.problem.plan.relations.as_ref().map_or(0, |r| r.len());
+        let order = |s: &sol::Solution| s.tours.iter().map(|t| (t.vehicle_id.clone(), t.shift_index, t.stops.iter().flat_map(|st| st.activities().iter().map(|a| a.job_id.clone())).collect::<Vec<_>>())).collect::<BTreeSet<_>>();
+        if order(&solution) != order(&witness) {
+            // the search really moved something while the locks had to hold
+            stats.class("rel.solution_differs_from_witness");
+            stats.nontrivial(hash_of(&format!("{case:?}")));
+        }
+        if relations >= 2 {
+            stats.class("rel.two_or_more_relations");
+        }
+        stats.sample(2, || json!({"kind": Prop::name(self), "features": locked.info.features, "jobs": locked.problem.plan.jobs.len(), "relations": locked.problem.plan.relations, "tours": solution.tours.len()}));
+        findings_failure(self.property, &self.which, &verdict, &locked, &text, stats)
+    }
+}
+
 /// Replay-only sub-check over complete documents (problem + matrices + config), used by corpus files.
 #[derive(Clone, Debug, Serialize, Deserialize)]
 pub struct DocCase {
@@ -231,7 +336,7 @@ pub fn property(id: &'static str, _tier: Tier) -> PropertyDef {
             "required breaks, vicinity clustering, recharge and time-dependent matrices are judged under restricted semantics (not generated in this engine)",
             "thread interleavings and termination moments are sampled, not enumerated",
         ],
-        props: vec![Box::new(E2eProp { which: which.clone(), property: id }), Box::new(E2eDocProp { which, property: id })],
+        props: vec![Box::new(E2eProp { which: which.clone(), property: id }), Box::new(RelProp { which: which.clone(), property: id }), Box::new(E2eDocProp { which, property: id })],
         extra: None,
         required_classes: required,
     }
